@@ -254,6 +254,24 @@ def _chunk_task(prop_name, tier, master, indices):
     return out
 
 
+def run_digest(r):
+    """Digest of everything a run reports (verdict, counters incl. traced steps / switches / faults, non-triviality keys)."""
+    return digest({'violations': r['violations'], 'stats': r['stats'], 'keys': r['keys'], 'harness': bool(r.get('harness'))})
+
+
+def rerun(prop_name, tier, master, indices, workers):
+    """Execute the given run indices again (fresh worker processes); used by the in-check determinism sample."""
+    import multiprocessing as mp
+    from concurrent.futures import ProcessPoolExecutor
+    bootstrap()
+    out = {}
+    with ProcessPoolExecutor(max_workers=max(1, min(workers, len(indices))), mp_context=mp.get_context('fork')) as ex:
+        for res in ex.map(_chunk_task, [prop_name] * len(indices), [tier] * len(indices), [master] * len(indices), [[i] for i in indices]):
+            for r in res:
+                out[r['index']] = run_digest(r)
+    return out
+
+
 def sweep(prop_name, tier, master, n_runs, workers, wall_cap, chunk=4, on_result=None):
     """Run ``n_runs`` simulated runs on ``workers`` processes; stop submitting after ``wall_cap`` s."""
     import multiprocessing as mp
